@@ -8,7 +8,7 @@ src = f"/tmp/seed/{ID}/out/{N}"
 dst = f"/verif/seeded/{ID}-{N}"
 os.makedirs(dst, exist_ok=True)
 for f in os.listdir(src):
-    if os.path.isfile(os.path.join(src, f)) and os.path.getsize(os.path.join(src, f)) < 2_000_000:
+    if os.path.isfile(os.path.join(src, f)) and os.path.getsize(os.path.join(src, f)) < 300_000 and (f.endswith((".cpp", ".json", ".diff", ".nif", ".txt", ".hpp", ".h", ".sh")) ):
         shutil.copy(os.path.join(src, f), dst)
 meta = json.load(open(os.path.join(dst, "meta.json")))
 wt = f"/tmp/confirm/{ID}-{N}"
